@@ -539,7 +539,7 @@ func runC06Numbers(payload string) string {
 // c06.terms
 // ---------------------------------------------------------------------------------------------
 
-var c06OpNames = []string{"foo", "bar", "baz", "e", "E", "x", "++", "=>", "-", "+", "*", "\\", ":", "$", "=", "mod", "is", "->", "|", "fy", "Q q", "[]", "{}", ",", "'", "\\+", "--", "dynamic", ".", "é", "∀", "€"}
+var c06OpNames = []string{"foo", "bar", "baz", "e", "E", "x", "++", "=>", "-", "+", "*", "\\", ":", "$", "=", "mod", "is", "->", "|", "fy", "Q q", "[]", "{}", ",", "'", "\\+", "--", "dynamic", ".", "é", "∀", "€", "e1", "e10x", "E1", "..", ".=.", "b1", "x0", "o7"}
 var c06OpPris = []int64{1, 2, 199, 200, 201, 400, 500, 699, 700, 701, 999, 1000, 1001, 1105, 1199, 1200}
 var c06OpSpecs = []string{"fx", "fy", "xf", "yf", "xfx", "xfy", "yfx"}
 
